@@ -53,7 +53,7 @@ package remember
 //@   ensures[C07] token_for_logged_in_user: each Store.AddRememberToken(?p, _) =>
 //@       ite(ctxuser(req) != nil, p == PID(ctxuser(req)),
 //@           before Store.Load(?lp) -> (?u, ?le) :: le == nil && p == PID(u))
-//@   ensures[C07] never_touches_session: !emits Sess.Put(_, _) && !emits Sess.Del(_)
+//@   ensures[C07] never_touches_session: !emits Sess.Put(_, _) && !emits Sess.Del(_) && !emits Sess.DelAll(_)
 //@   ensures[C18] add_error_outcome: each Store.AddRememberToken(_, _) -> ?e => e != nil ==> (result.1 != nil && !emits Cook.Put(_, _))
 //@
 //@ func Middleware#1#1
